@@ -60,6 +60,17 @@ CHECKS["C13"] = ("fault_enumeration",
     "Assumes the only time source is ctparse.timers.perf_counter (patched); a deadline check is a clock read not made by the timeit wrapper.",
     "DESIGN.md 4 (C13)")
 
+CHECKS["C12"] = ("exploration",
+    "Hypothesis stateful (rule-based) machine over call histories incl. abandoned/closed streams and calls whose scorer raises; exhaustive enumeration of all interleavings of two short candidate streams; 8-thread stress; fresh-subprocess baselines under several PYTHONHASHSEED values; deep before/after snapshots of rule base and model",
+    "Every completed call or stream inside generated histories must equal the observation made in a fresh PYTHONHASHSEED=0 process (value, span, score, production, subject, labels); generator-step interleavings are enumerated completely for the listed pairs (n1+n2<=12 steps); the thread part is a stress run only.",
+    "The harness does not own the thread schedule; floating point scores compared exactly on the same machine.",
+    "DESIGN.md 4 (C12)")
+CHECKS["C15"] = ("exploration",
+    "Differential against an independently written naive derivation closure (reference model) on generated short texts x scorers x depth limits; in-place argument-snapshotting registry wrappers for purity; candidates re-observed after the stream ends",
+    "For texts whose derivation graph is enumerable the complete graph is built with clones; soundness (value and span derivable), the reported production being a real path, completeness at unlimited depth (every fully reduced result streamed) and purity are decided exactly per text; the text space is sampled with Hypothesis.",
+    "The reference shares the registered rule functions/predicates, the pattern table and the RegexMatch class with the library, nothing of the search.",
+    "DESIGN.md 4 (C15)")
+
 NOT_YET = "check not built yet in this round (see DESIGN.md section 4 for the planned generated-input check)"
 
 
